@@ -48,17 +48,17 @@ add(Contract(
     ],
     loops={
         0: {"inv": [("pos", "P0 <= pos and pos <= maximum and maximum == state.eMarks[startLine] and state.src[P0] == '['"), QUIET], "dec": "maximum - pos"},
-        1: {"types": {"terminate": "bool", "terminatorRule": "none"},
+        1: {"modular": True, "types": {"terminate": "bool", "terminatorRule": "none"},
             "inv": [("next", "startLine + 1 <= nextLine and nextLine <= max(endLine, startLine + 1) and endLine == state.lineMax"), QUIET, PT, ("bracket", "state.src[P0] == '['")], "dec": "endLine - nextLine"},
         2: {"types": {"terminatorRule": "none"},
             "inv": [("next", "startLine + 1 <= nextLine and nextLine < endLine and endLine == state.lineMax"), ("not-terminate", "not terminate"), QUIET, PT, ("bracket", "state.src[P0] == '['")],
             "dec": "len(terminatorRules) - _it2"},
-        3: {"types": {"ch": "optint", "labelEnd": "optint"}, "inv": [("pos", "1 <= pos"), STR, LC(), ("no-label-end", "labelEnd is None"), ("lines", "lines >= 0"), QUIET, PT, ("bracket", "state.src[P0] == '['")], "dec": "maximum - pos"},
-        4: {"types": {"ch": "optint"}, "inv": [("pos", "2 <= pos"), STR, LC(), ("lines", "lines >= 0"), QUIET, PT, ("bracket", "state.src[P0] == '['")], "dec": "maximum - pos"},
-        5: {"types": {"ch": "optint"}, "inv": [("pos", "start <= pos and 2 <= start and destEndPos == start and destEndPos <= maximum"), STR, LC(), ("lines", "lines >= 0"), QUIET, PT, ("bracket", "state.src[P0] == '['"),
+        3: {"modular": True, "types": {"ch": "optint", "labelEnd": "optint"}, "inv": [("pos", "1 <= pos"), STR, LC(), ("no-label-end", "labelEnd is None"), ("lines", "lines >= 0"), QUIET, PT, ("bracket", "state.src[P0] == '['")], "dec": "maximum - pos"},
+        4: {"modular": True, "types": {"ch": "optint"}, "inv": [("pos", "2 <= pos"), STR, LC(), ("lines", "lines >= 0"), QUIET, PT, ("bracket", "state.src[P0] == '['")], "dec": "maximum - pos"},
+        5: {"modular": True, "types": {"ch": "optint"}, "inv": [("pos", "start <= pos and 2 <= start and destEndPos == start and destEndPos <= maximum"), STR, LC(), ("lines", "lines >= 0"), QUIET, PT, ("bracket", "state.src[P0] == '['"),
                                              ("saved", "destEndLineNo == CountCh(string, 0, destEndPos, '\\n') and destEndLineNo >= 0")], "dec": "maximum - pos"},
-        6: {"types": {"ch": "optint"}, "inv": [("pos", "2 <= pos and destEndPos <= maximum and 2 <= destEndPos"), STR, LC(), ("lines", "lines >= 0"), QUIET, PT, ("bracket", "state.src[P0] == '['"),
+        6: {"modular": True, "types": {"ch": "optint"}, "inv": [("pos", "2 <= pos and destEndPos <= maximum and 2 <= destEndPos"), STR, LC(), ("lines", "lines >= 0"), QUIET, PT, ("bracket", "state.src[P0] == '['"),
                                              ("saved", "destEndLineNo == CountCh(string, 0, destEndPos, '\\n') and destEndLineNo >= 0")], "dec": "maximum - pos"},
-        7: {"types": {"ch": "optint"}, "inv": [("pos", "2 <= pos"), STR, LC(), ("lines", "lines >= 0"), QUIET, PT, ("bracket", "state.src[P0] == '['")], "dec": "maximum - pos"},
+        7: {"modular": True, "types": {"ch": "optint"}, "inv": [("pos", "2 <= pos"), STR, LC(), ("lines", "lines >= 0"), QUIET, PT, ("bracket", "state.src[P0] == '['")], "dec": "maximum - pos"},
     },
 ))
